@@ -6,6 +6,7 @@ package main
 // model), not from what the pickers happen to see. AllEndpoints() is compared with the server list as well.
 
 import (
+	"errors"
 	"fmt"
 	"runtime/debug"
 	"sort"
@@ -60,7 +61,7 @@ func readableChurn(cs Case) string {
 	return b.String()
 }
 
-func runChurn(c *rig.Ctx, cs Case, record bool, inf *info) bool {
+func runChurn(c *rig.Ctx, cs Case, record bool, inf *info) (ok bool) {
 	fail := func(kind, class, what string, impl interface{}) bool {
 		inf.kind, inf.class = kind, class
 		inf.failure = &rig.Failure{Kind: kind, Class: class, What: what + " | case: " + readableChurn(cs), Case: cs, Impl: impl}
@@ -81,7 +82,16 @@ func runChurn(c *rig.Ctx, cs Case, record bool, inf *info) bool {
 	setup := make([]lib.Op, len(cs.Setup))
 	copy(setup, cs.Setup)
 	if _, err := lib.Play(c, w, setup); err != nil {
-		return fail("diff", "c14.setup", "set-up: "+err.Error(), nil)
+		var mm *lib.SetupMismatch
+		if !errors.As(err, &mm) {
+			return fail("diff", "c14.setup", "set-up: "+err.Error(), nil)
+		}
+		defer func() {
+			if inf.kind != "judge" {
+				fail("diff", "c14.setup", "set-up: "+mm.What, nil)
+				ok = false
+			}
+		}()
 	}
 	first := cs.Setup[0]
 	npol := len(first.Policies)
@@ -165,7 +175,7 @@ func runChurn(c *rig.Ctx, cs Case, record bool, inf *info) bool {
 	}
 	final := cs.Churn[len(cs.Churn)-1]
 	var expect windowReply
-	if err := c.Model("C14.window", map[string]interface{}{"setup": modelOps, "subset": []string{}, "d": 1, "impl": []interface{}{}}, &expect); err != nil {
+	if err := c.Model("C14.window", map[string]interface{}{"policy_scopes": lib.PolicyScopes(), "setup": modelOps, "subset": []string{}, "d": 1, "impl": []interface{}{}}, &expect); err != nil {
 		return fail("diff", "c14.model-error", "model error "+err.Error(), nil)
 	}
 	// 3. quiescence: every endpoint object the final spec wants exists, enabled ones have had their first probe (status =
@@ -261,7 +271,7 @@ func runChurn(c *rig.Ctx, cs Case, record bool, inf *info) bool {
 			}
 		}
 		var m windowReply
-		if err := c.Model("C14.window", map[string]interface{}{"setup": modelOps, "subset": subset, "d": len(orders), "impl": outs}, &m); err != nil {
+		if err := c.Model("C14.window", map[string]interface{}{"policy_scopes": lib.PolicyScopes(), "setup": modelOps, "subset": subset, "d": len(orders), "impl": outs}, &m); err != nil {
 			return fail("diff", "c14.model-error", "model error "+err.Error(), nil)
 		}
 		if m.K > inf.maxK {
